@@ -7,7 +7,7 @@ CFG = {
                   "float comparators return the native sign whenever |a-b| > tolerance and 0 whenever |a-b| is below a "
                   "representable bound under the tolerance (for any monotone, odd rounding that fixes representables); "
                   "BinarySearch(Func) = (lowest insertion position, found) on sorted input without midpoint overflow below 2^63; "
-                  "IsSorted(Func), Compare(Func), Equal(Func), Index, Contains equal their definitions; pdqsort and the stable sort "
+                  "IsSorted(Func), Compare(Func), Equal(Func), Index, Contains equal their definitions; CompareFunc returns exactly the first non-zero result of an ARBITRARY cmp (else the comparison of the lengths) and EqualFunc = same length and eq on every pair, both calling the user function on (s1[i], s2[i]) in that argument order, in increasing i, up to the deciding pair (C10_compare_func_spec, C10_equal_func_spec; the runs hand the real code comparison functions of non-unit magnitude and asymmetric predicates with recorded calls, C10_cmpsel_laws); pdqsort and the stable sort "
                   "return a Permutation of the input for every input and every less (every write is an in-range swap); "
                   "insertionSort and heapSort (siftDown invariant) sort their range, touch nothing else and never index out of "
                   "range for every strict weak order; partition and partitionEqual satisfy their post-conditions (left part < pivot "
@@ -47,7 +47,8 @@ CFG = {
         "C10_index_contains", "C10_sort_perm", "C10_insertion_sorted", "C10_heapsort_sorted", "C10_partition_post", "C10_partition_equal_post",
         "C10_sort_sorted_partial", "C10_sort_sorted", "C10_pdqsort_range", "C10_partial_insertion", "C10_pivot_in_range",
         "C10_stable_sorted", "C10_stable_key", "C10_symmerge", "C10_rotate",
-        "C10_sorted_perm_checker", "C10_checker_orders", "C10_stable_checker"])],
+        "C10_sorted_perm_checker", "C10_checker_orders", "C10_stable_checker",
+        "C10_compare_func_spec", "C10_equal_func_spec", "C10_cmpsel_laws"])],
     "trusted": [
         "IEEE-754 subtraction of the float comparators = a rounding of the exact difference that is monotone, odd and the "
         "identity on representable values; 0.0000001 denotes a representable positive double (premises of C10_cmp_float)",
